@@ -1,1 +1,5 @@
+pub mod coord;
+pub mod evidence;
+pub mod fsutil;
+pub mod pool;
 pub mod rng;
